@@ -235,7 +235,7 @@ class Vocab:
             elif y < 0.9:
                 v = self.near_miss(rng.choice(self.closed.get(k) or FREE_POOL))
             else:
-                v = rng.choice(["", " ", "~", "a b", "x,y", "a#b", "a\tb", "~~x", "x~"])
+                v = rng.choice(["", " ", "~", "a b", "x,y", "a#b", "a\tb", "~~x", "x~", "ns:node", "a:b", "x~y", ":x"])
             if rng.random() < 0.2:
                 v = "~" + v
             pairs.append((k, v))
